@@ -10,6 +10,17 @@ use crate::zalsa::verif::{any_zalsa, VDb};
 use crate::{Database, Durability};
 
 pub(crate) fn storage_around(zalsa: Zalsa) -> Storage<VDb> {
+    let mut st = storage_around_raw(zalsa);
+    // Re-state, field by field, facts about the (moved) `Zalsa` that CBMC loses when the struct is
+    // copied bytewise into the `Arc` allocation: no ingredients, none requiring reset, no callback.
+    // Without them the write path fans out into a dynamic dispatch over every `Ingredient` impl.
+    if let Some(z) = Arc::get_mut(&mut st.handle.zalsa_impl) {
+        crate::zalsa::verif::restate_empty(z);
+    }
+    st
+}
+
+fn storage_around_raw(zalsa: Zalsa) -> Storage<VDb> {
     Storage {
         handle: StorageHandle {
             zalsa_impl: Arc::new(zalsa),
